@@ -58,7 +58,7 @@ impl DynamicTypeItem {
                 false => &next_item.downgrade_code[..]
             };
             
-            number = match SmartCalc::basic_execute(code.replace("{value}", &number.to_string()), config) {
+            number = match SmartCalc::basic_execute(Self::localize_code(config, code, number), config) {
                 Ok(number) => number,
                 Err(_) => return None
             };
@@ -82,6 +82,11 @@ impl DynamicTypeItem {
         Some(number)
     }
     
+    /* Calculation codes and the inserted value are written with '.', the reader follows the configured separators */
+    fn localize_code(config: &SmartCalcConfig, code: &str, number: f64) -> String {
+        code.replace("{value}", &number.to_string()).replace('.', &config.decimal_seperator)
+    }
+
     pub fn convert(config: &SmartCalcConfig, number: f64, source_type: Rc<DynamicType>, target_type: String) -> Option<(f64, Rc<DynamicType>)> {
         let group = config.types.get(&source_type.group_name)?;
         let values: Vec<Rc<DynamicType>> = group.values().cloned().collect();
@@ -118,7 +123,7 @@ impl DynamicTypeItem {
             false => &type_conversion.to_target_calculation[..]
         };
 
-        let number = match SmartCalc::basic_execute(code.replace("{value}", &number.to_string()), config) {
+        let number = match SmartCalc::basic_execute(Self::localize_code(config, code, number), config) {
             Ok(number) => number,
             Err(_) => return None
         };
